@@ -5,11 +5,11 @@ package main
 // agreement, index/length facts, nil facts, grammar operator/value pairing).
 
 import (
-	"os"
 	"fmt"
 	"go/constant"
 	"go/token"
 	"go/types"
+	"os"
 	"sort"
 	"strings"
 
@@ -26,7 +26,7 @@ type kindTables struct {
 	cmpAssert  map[*ssa.Function]types.Type
 	cmpKinds   map[*ssa.Function]KindSet
 	cmpAccess  map[*ssa.Function][]string
-	cmpSym     map[*ssa.Function]*Sym   // the function value of the comparator (a closure carries its captured variables)
+	cmpSym     map[*ssa.Function]*Sym     // the function value of the comparator (a closure carries its captured variables)
 	cmpBody    map[*ssa.Function][]string // problems of the comparator's body (C02)
 	cmpPart    map[*ssa.Function]bool     // module functions that read the value on behalf of a comparator (func(reflect.Value) T accessors)
 	problems   []string
@@ -180,7 +180,9 @@ func buildKindTables(prog *Program, a *Anchors) *kindTables {
 			continue
 		}
 		ps := NewPathSim(prog)
-		ps.Inline = func(c *ssa.Function) bool { return c != f && (prog.InModule(c) || isSynthetic(c)) && !recursive(prog, c) }
+		ps.Inline = func(c *ssa.Function) bool {
+			return c != f && (prog.InModule(c) || isSynthetic(c)) && !recursive(prog, c)
+		}
 		lp, vp := cmpParams(f)
 		if lp == nil || vp == nil {
 			kt.problems = append(kt.problems, "comparator "+f.Name()+" does not take (literal, value)")
@@ -281,14 +283,14 @@ type c09ctx struct {
 	order  []ssa.Instruction
 	cmpSet map[*ssa.Function]bool
 	// functions in which a value-carrying operator is assumed (pairing): fn -> why
-	needsValue map[*ssa.Function][]string
+	needsValue        map[*ssa.Function][]string
 	validatedCmpCalls int
 	// interprocedural reflect-kind facts: parameter -> join over all call sites of the argument's kinds
-	havoc     bool // widen loop-carried values after the visit bound (thorough tier)
-	collect   bool
-	paramIn   map[*ssa.Parameter]KindSet
-	paramSeen map[*ssa.Parameter]int
-	paramK    map[*ssa.Parameter]KindSet
+	havoc      bool // widen loop-carried values after the visit bound (thorough tier)
+	collect    bool
+	paramIn    map[*ssa.Parameter]KindSet
+	paramSeen  map[*ssa.Parameter]int
+	paramK     map[*ssa.Parameter]KindSet
 	postNonNil map[*ssa.Function]int // 0 unknown, 1 yes, 2 no
 	postAlways map[*ssa.Function]bool
 	// helpers that can only run as static calls from analysed functions and could not be discharged on their own:
@@ -296,12 +298,12 @@ type c09ctx struct {
 	inlined map[*ssa.Function]bool
 	ctxOnly map[*ssa.Function]bool
 	// interprocedural facts about parameters of helpers all of whose callers are analysed: a lower bound of len(p), p != nil
-	paramLen    map[*ssa.Parameter]int64
-	paramLenIn  map[*ssa.Parameter]int64
-	paramNN     map[*ssa.Parameter]bool
-	paramNNIn   map[*ssa.Parameter]bool
-	curIns      ssa.Instruction
-	optimistic  bool // first collecting round: recursive call sites are skipped (their facts are checked in the next rounds under the assumption)
+	paramLen   map[*ssa.Parameter]int64
+	paramLenIn map[*ssa.Parameter]int64
+	paramNN    map[*ssa.Parameter]bool
+	paramNNIn  map[*ssa.Parameter]bool
+	curIns     ssa.Instruction
+	optimistic bool // first collecting round: recursive call sites are skipped (their facts are checked in the next rounds under the assumption)
 }
 
 func (c *c09ctx) site(ins ssa.Instruction, kind, name string) *siteRes {
@@ -1158,7 +1160,7 @@ func (c *c09ctx) convertOK(st *pstate, recv, t *Sym) (bool, string) {
 }
 
 func (c *c09ctx) setMapIndexOK(st *pstate, ev *Event) (bool, string) { return true, "" }
-func (c *c09ctx) appendOK(st *pstate, ev *Event) bool                 { return true }
+func (c *c09ctx) appendOK(st *pstate, ev *Event) bool                { return true }
 
 // assertOK: single-value type assertions outside comparators.
 func (c *c09ctx) assertOK(f *ssa.Function, st *pstate, x *Sym, target types.Type) (bool, string) {
